@@ -100,7 +100,7 @@ func contains(a []string, s string) bool {
 }
 
 var robustBases = []string{"http://u:p@h:8/a/b?q#f", "file://h", "file:///C:/d", "x:o", "x://h", "http://h", "\xff://", ""}
-var nastyValues = []string{"", "\xff\xfe", "\x00", "a\xffb", "%", "%zz", "[::1", "////", "::::", "@@@@", "#?#?", " \t\n", "C|", "..", "\\\\"}
+var nastyValues = []string{"", "\xff\xfe", "\x00", "a\xffb", "%", "%zz", "[::1", "////", "::::", "@@@@", "#?#?", " \t\n", "C|", "..", "\\\\", "file", "http", "x", "gopher:"}
 
 // exercise performs the whole menu of public calls for one input under one parser; it returns the number of calls and the bad ones.
 func exercise(p url.Parser, in string) (calls int, bad []badCall) {
@@ -186,6 +186,11 @@ func exercise(p url.Parser, in string) (calls int, bad []badCall) {
 			for _, st := range setters {
 				st := st
 				try(st.n, func() (*url.Url, error, bool) { st.f(v); return c, nil, false })
+			}
+			// the state left by the whole sequence feeds the scheme setter again (scheme class / host-lessness may have changed)
+			for _, sch := range []string{"file", "http", "x", v} {
+				sch := sch
+				try("SetProtocol after history", func() (*url.Url, error, bool) { c.SetProtocol(sch); return c, nil, false })
 			}
 			getters("after setters", c)
 			try("SearchParams ops", func() (*url.Url, error, bool) {
